@@ -86,7 +86,31 @@ func allBytes(b []byte, v byte) bool {
 
 // monitorWire checks C08 (whole packets only) and the field part of C09 on
 // every connection of the execution, and C18's "CONNECT first".
+// monitorStoreIntegrity (C15): every value handed to the Persistence follows
+// the documented layout with a fresh sequence number.
+func (w *World) monitorStoreIntegrity() {
+	seen := map[uint64]int{}
+	for _, e := range w.log {
+		if e.K == "crash" {
+			seen = map[uint64]int{} // damaged snapshots may lower the counter
+		}
+		if e.K != "store" || e.S != "save" {
+			continue
+		}
+		_, seq, ok := refDecodeValue(e.B)
+		if !ok {
+			w.Violate("C15", "stored-value-corrupt", "the value saved under %#x at step %d does not follow packet ‖ LE64(seq) ‖ BE32(FNV-1a): %x", e.N, e.Step, trunc(e.B))
+			continue
+		}
+		if at, dup := seen[seq]; dup && e.R == "" {
+			w.Violate("C15", "storage-sequence-reused", "storage sequence number %d used for the save of %#x at step %d and again at step %d", seq, e.N, at, e.Step)
+		}
+		seen[seq] = e.Step
+	}
+}
+
 func (w *World) monitorWire() {
+	w.monitorStoreIntegrity()
 	for _, v := range w.bk.violations {
 		w.Violate("C08", "broker-protocol-violation", "conforming broker had to reject the client's bytes: %s", v)
 	}
